@@ -25,6 +25,8 @@ def setup_side(env, disk_files=None):
     disk = S.SimDisk(disk_files)
     se.install(clock_spec=env['clock'], hash_spec=env['hash'], disk=disk)
     S.hold_junk(*env['junk'])
+    if env.get('host'):
+        S.patch_process_clock(se.clock, host=env['host'], pid=env.get('pid'), cpus=env.get('cpus'))
     pe = env.get('environ')
     if pe:
         # process environment of this side: nothing of it may reach stdout
@@ -155,6 +157,9 @@ def build_model(argv, f):
     return None, 'rc:%s' % m
 
 
+_SHARED_MEDIA = {}
+
+
 def build_direct(spec, f):
     """Build through constructors, as the unit tests do; can share the
     exported `ideal_ground` between models."""
@@ -164,6 +169,14 @@ def build_direct(spec, f):
     if spec.get('ground') == 'shared_ideal':
         media = [mm.ideal_ground]
         S.fired('shared_ideal_ground')
+    elif spec.get('ground') == 'shared_real':
+        # one list of Medium objects handed to every such model of this
+        # interpreter (the media list is stored by reference)
+        if 'real' not in _SHARED_MEDIA:
+            _SHARED_MEDIA['real'] = [mm.Medium(13, 0.005)]
+        else:
+            S.fired('shared_real_medium')
+        media = _SHARED_MEDIA['real']
     elif spec.get('ground') == 'ideal':
         media = [mm.Medium(0, 0)]
     m = mm.Mininec(f, wires, media=media)
@@ -183,7 +196,7 @@ def make_angle(spec):
     return mm.Angle(float(spec[0]), float(spec[1]), int(spec[2]))
 
 
-def do_far(m, far, angles=None, positional=False):
+def do_far(m, far, angles=None, positional=False, mutate=False):
     """angles: optional dict used to reuse the caller's Angle objects
     between requests (a caller may well keep them)."""
     zen, azi, pwr, dist = far
@@ -192,7 +205,16 @@ def do_far(m, far, angles=None, positional=False):
         kw['pwr'] = pwr
     if dist:
         kw['dist'] = dist
-    if angles is not None:
+    if angles is not None and mutate:
+        # the caller keeps ONE pair of Angle objects and edits them in place
+        # before every request
+        if '_mut' not in angles:
+            angles['_mut'] = (make_angle(zen), make_angle(azi))
+        za, aa = angles['_mut']
+        for obj, spec in ((za, zen), (aa, azi)):
+            obj.initial, obj.inc, obj.number = float(spec[0]), float(spec[1]), int(spec[2])
+        S.fired('caller_mutated_angle_objects')
+    elif angles is not None:
         key = (tuple(zen), tuple(azi))
         if key not in angles:
             angles[key] = (make_angle(zen), make_angle(azi))
@@ -252,6 +274,19 @@ def sections_num(m, st, loads=True):
         r['num.power'] = _arr(m.power)
         r['num.src.impedance'] = _arr([s.impedance for s in m.sources])
         r['num.src.power'] = _arr([s.power for s in m.sources])
+    # wavelength-derived scalars and the geometry arrays every computation
+    # shares (an in-place change of one of them is history for all later ones)
+    r['num.scalars'] = _arr([m.f, m.wavelen, m.w, m.w2, m.srm, m.m])
+    pc = m.pulses
+    for name in ('seg_len', 'dirvec', 'sign', 'gnd_sgn', 'radius', 'point', 'ground', 'inv_ground'):
+        try:
+            r['num.geo.' + name] = _arr(getattr(pc, name)).astype(float)
+        except AttributeError:
+            pass
+    if st.computed and st.far is not None:
+        r['num.far.params'] = _arr([m.ff_power, m.ff_dist or 0])
+    if st.computed and st.near is not None:
+        r['num.near.params'] = _arr(list(np.array(m.nf_param, dtype=float).flat) + [m.nf_power])
     if loads:
         # same evaluation order as compute(): self.loads, then load.pulses
         v = []
@@ -526,8 +561,8 @@ class ApiRuntime:
                     S.fired('field_order')
                     info['probe'] = 'near_then_far'
                 var = op[2] if len(op) > 2 else ''
-                do_far(m, t['fars'][op[1]], angles=self.angles if 'r' in var else None,
-                       positional='p' in var)
+                do_far(m, t['fars'][op[1]], angles=self.angles if ('r' in var or 'm' in var) else None,
+                       positional='p' in var, mutate='m' in var)
                 st.apply(op)
             elif kind == 'NEAR':
                 if st.near is not None and st.near != op[1]:
